@@ -35,7 +35,7 @@ for sid in defects:
     lines.append(f"| {sid} | {m['change']} | {m['needs_to_manifest']} | {o} |")
 head = (f"{len(defects)} confirmed seeded defects (demo fails with / passes without the patch; the 152 baseline tests unchanged): "
         f"**{nd} reported as violation** by at least one check, **{nr} refused** (every affected check ends in exit 2 - the change moves the code "
-        f"outside the vocabulary, no verdict), **{nm} missed** (all value-level: clauses listed as *not decided*).\n")
+        f"outside the vocabulary, no verdict), **{nm} missed** (value-level clauses listed as *not decided*, plus a changed default argument and one costlier-but-valid table row).\n")
 rl = ["| id | refactoring | outcome (never a violation) |", "|---|---|---|"]
 npass = nref = 0
 for sid in refac:
